@@ -179,8 +179,8 @@ func (d *drv) deleteFinalized() {
 }
 
 // fork: delete k tips (saved to temp as fast sync does), grow a competing branch on other slots; then either keep it and
-// clear the temp table (successful sync) or fail: delete the branch (saveTemp, as restoreBlocks does) and re-apply what the
-// temp table holds, lowest height first, with removeTemp.
+// clear the temp table (successful sync) or fail: delete the branch (without temp, as restoreBlocks does) and re-apply what
+// the temp table holds, lowest height first, with removeTemp.
 func (d *drv) fork() {
 	n := d.n
 	k := 1 + d.r.Intn(4)
@@ -201,7 +201,7 @@ func (d *drv) fork() {
 		return
 	}
 	for n.Tip().Header.Height != common {
-		if !d.deleteTip(true, "failed sync: delete till common block") {
+		if !d.deleteTip(false, "failed sync: delete till common block") {
 			return
 		}
 	}
@@ -212,8 +212,8 @@ func (d *drv) fork() {
 	blockchain.SortBlockByHeightAsc(blocks)
 	for _, b := range blocks {
 		n.ABI.S = d.scripts[hex.EncodeToString(b.Header.ID)]
-		// the temp table holds, per height, the block deleted last: blocks of the failed branch first, then originals whose
-		// parent is gone — the verdict is taken from the implementation for these steps
+		// the temp table holds the original blocks; the verdict is still taken from the implementation for these steps
+		// (a restart or a refused deletion in between can leave a partial table)
 		s := &Step{Op: "apply", ID: hex.EncodeToString(b.Header.ID), P: d.postPrecommit(b), RT: true, OKImpl: true, What: "failed sync: restore temp block"}
 		r := n.ProcessValidated(b, true)
 		s.OK = r.OK()
